@@ -12,6 +12,22 @@ const ModulePath = "example.com/w"
 const extSource = `// Package ext is an imported package with exported and unexported fields.
 package ext
 
+import (
+	"time"
+
+	oext "example.com/w/other/ext"
+)
+
+// X has unexported fields whose types come from packages its users need not import.
+type X struct {
+	Name string
+	ttl  time.Duration
+	at   oext.T
+	when []time.Month
+}
+
+func NewX(n string) X { return X{Name: n} }
+
 type T struct {
 	A int
 	b string
@@ -144,6 +160,9 @@ func declUses(d *Decl, set map[string]bool) {
 }
 
 func callUses(c *Call, set map[string]bool) {
+	if c.Pair != nil {
+		callUses(c.Pair, set)
+	}
 	for _, a := range c.Args {
 		if a.Nested != nil {
 			callUses(a.Nested, set)
